@@ -37,7 +37,12 @@ RULE = ("(1) converter trees: every tree of depth <= 1 over 13 leaf kinds (plain
         "symbol, None, their argument, or raise) x 3 inputs x {standalone, __init__, assignment}, plus "
         "seeded random trees to depth 4 (pipe width <= 4, <= 6 for the 20% of trees without Converter members) in random class flavours (attr.s/define, slots, "
         "frozen, value passed / class default / Factory default, list-converter spelling, on_setattr at "
-        "class or field level, direct setters.convert call); the result is compared as a symbolic term "
+        "class or field level, direct setters.convert call); in 30% of the random cases and in a dedicated "
+        "layer every callable (plain converter, function inside a Converter, factory) is a callable OBJECT "
+        "with value-based __eq__/__hash__ (all of one arity are equal to each other, half of them falsy) and "
+        "an EQUAL object with a different symbol was used as a converter earlier in the process - by another "
+        "class or by a field of the same class declared before - so the symbol in the result term identifies "
+        "the callee; the result is compared as a symbolic term "
         "together with the factory call counter.  (2) to_bool: every letter-case of every documented "
         "string spelling, near-miss and random ASCII strings, a heterogeneous pool of non-strings (incl. "
         "objects whose str()/repr() is a listed spelling: paths, exceptions, custom __str__, bytes, "
@@ -163,16 +168,82 @@ class _State:
     counter = 0
 
 
+def _sym_body(f, args):
+    if f < 10:
+        return App(f, args)
+    if f < 20:
+        return None
+    if f < 30:
+        raise UserErr(f)
+    return args[0]
+
+
+class _Mode:
+    eqobj = False      # build every symbolic callable as a callable OBJECT with value equality
+
+
+class _EqCallable:
+    """A callable object whose __eq__/__hash__ look only at `key` (its role and arity), not at what it
+    does: two of them are EQUAL but behave differently (different symbol f) - like a frozen attrs
+    instance with __call__ whose __eq__ leaves a behavioural knob out.  Whoever looks a callable up by
+    equality instead of using the object it was given calls the wrong one; the symbol in the result
+    term is the identity tag of the callee."""
+    __slots__ = ("f", "key")
+
+    def __init__(self, f, key):
+        self.f, self.key = f, key
+
+    def __eq__(self, other):
+        return isinstance(other, _EqCallable) and other.key == self.key
+
+    def __ne__(self, other):
+        return not self.__eq__(other)
+
+    def __hash__(self):
+        return hash(self.key)
+
+    def __bool__(self):
+        # half of them are FALSY callables: `if converter:` instead of `is not None` would skip them
+        return self.f % 2 == 0
+
+
+class EqFun1(_EqCallable):
+    __slots__ = ()
+
+    def __call__(self, v):
+        return _sym_body(self.f, (v,))
+
+
+class EqFun2(_EqCallable):
+    __slots__ = ()
+
+    def __call__(self, v, x):
+        return _sym_body(self.f, (v, x))
+
+
+class EqFun3(_EqCallable):
+    __slots__ = ()
+
+    def __call__(self, v, x, y):
+        return _sym_body(self.f, (v, x, y))
+
+
+class EqFactory(_EqCallable):
+    __slots__ = ()
+
+    def __call__(self):
+        k = _State.counter
+        _State.counter += 1
+        return Fresh(self.f, k)
+
+
 def mk_fun(f, k):
     """Symbolic callable number f with exactly k positional parameters (see std_app)."""
+    if _Mode.eqobj:
+        return {1: EqFun1, 2: EqFun2, 3: EqFun3}[k](f, ("fun", k))
+
     def body(args):
-        if f < 10:
-            return App(f, args)
-        if f < 20:
-            return None
-        if f < 30:
-            raise UserErr(f)
-        return args[0]
+        return _sym_body(f, args)
     if k == 1:
         return lambda v: body((v,))
     if k == 2:
@@ -181,6 +252,9 @@ def mk_fun(f, k):
 
 
 def mk_factory(g):
+    if _Mode.eqobj:
+        return EqFactory(g, ("factory",))
+
     def factory():
         k = _State.counter
         _State.counter += 1
@@ -217,6 +291,19 @@ def is_converter(t):
     if k == "opt":
         return is_converter(t[1])
     return False
+
+
+def _funs_of(t):
+    """function / factory symbols used in a tree"""
+    if t is None:
+        return set()
+    if t[0] in ("fun", "conv", "fac"):
+        return {t[1]}
+    if t[0] == "pipe":
+        return set().union(*[_funs_of(c) for c in t[1]]) if t[1] else set()
+    if t[0] == "opt":
+        return _funs_of(t[1])
+    return set()
 
 
 def depth(t):
@@ -282,7 +369,8 @@ SET_FLAVOURS = ["cls-convert", "cls-list", "field-convert", "define", "define-no
                 "direct"]
 
 
-def _mk_class(flavour, conv_obj, have_conv, default=attr.NOTHING, as_list=None, init=True):
+def _mk_class(flavour, conv_obj, have_conv, default=attr.NOTHING, as_list=None, init=True, decoy=None):
+    """decoy: a converter object for an additional keyword-only field `w` declared BEFORE `x`."""
     kw = {}
     if not init:
         kw["init"] = False
@@ -293,6 +381,9 @@ def _mk_class(flavour, conv_obj, have_conv, default=attr.NOTHING, as_list=None, 
     if flavour in ("define", "frozen", "define-noslots"):
         fld = attrs.field(**kw)
         ns = {"__annotations__": {"x": object}, "x": fld}
+        if decoy is not None:
+            ns = {"__annotations__": {"w": object, "x": object},
+                  "w": attrs.field(converter=decoy, default=TOKENS[0], kw_only=True), "x": fld}
         base = type("K", (), ns)
         if flavour == "define":
             return attrs.define(base)
@@ -301,7 +392,11 @@ def _mk_class(flavour, conv_obj, have_conv, default=attr.NOTHING, as_list=None, 
         return attrs.define(base, slots=False)
     if flavour == "field-convert":
         kw["on_setattr"] = setters.convert
-    base = type("K", (), {"x": attr.ib(**kw)})
+    ns = {}
+    if decoy is not None:
+        ns["w"] = attr.ib(converter=decoy, default=TOKENS[0], kw_only=True)
+    ns["x"] = attr.ib(**kw)
+    base = type("K", (), ns)
     opts = {
         "attr.s": {}, "attr.s-slots": {"slots": True}, "attr.s-frozen": {"frozen": True},
         "attr.s-frozen-slots": {"frozen": True, "slots": True},
@@ -331,6 +426,7 @@ def real_conv(inp):
         seen.append(enc_exc(e))
         sj.append(type(e).__name__)
 
+    _Mode.eqobj = bool(inp.get("eqobj"))
     try:
         if ctx == "SA":
             obj = build(t)
@@ -352,6 +448,19 @@ def real_conv(inp):
         as_list = None
         if have and inp.get("as_list") and t[0] == "pipe" and t[1]:
             as_list = [build(c) for c in t[1]]
+        # an EQUAL (same key) but different (other symbol) callable object, used as a converter earlier in
+        # the process: by another class, or by a field of the same class declared before x
+        decoy_field = None
+        if have and inp.get("decoy"):
+            free = set(range(10)) - _funs_of(t)
+            d = min(free) if free else (8 if t[:2] == ["fun", 9] else 9)
+            _Mode.eqobj = True
+            if inp["decoy"] == "class":
+                _mk_class("attr.s", mk_fun(d, 1), True)(TOKENS[0])
+                _mk_class("define", Converter(mk_fun(d, 3), takes_self=True, takes_field=True), True)(TOKENS[0])
+            else:
+                decoy_field = mk_fun(d, 1)
+            _Mode.eqobj = bool(inp.get("eqobj"))
         if ctx == "IN":
             how = inp["pass"]
             default = attr.NOTHING
@@ -359,7 +468,8 @@ def real_conv(inp):
                 default = vs[0]
             elif how in ("factory", "noinit-factory"):
                 default = Factory(lambda: vs[0])
-            cls = _mk_class(inp["flavour"], obj, have, default, as_list, init=not how.startswith("noinit"))
+            cls = _mk_class(inp["flavour"], obj, have, default, as_list, init=not how.startswith("noinit"),
+                            decoy=decoy_field)
             field = attr.fields(cls).x
             _State.counter = n0
             for v in vs:
@@ -376,7 +486,7 @@ def real_conv(inp):
                     ok(inst.x, inst, field)
             return seen, _State.counter, sj
         if ctx == "AS":
-            cls = _mk_class(inp["flavour"], obj, have, attr.NOTHING, as_list)
+            cls = _mk_class(inp["flavour"], obj, have, attr.NOTHING, as_list, decoy=decoy_field)
             field = attr.fields(cls).x
             inst = cls.__new__(cls)          # no __init__: the converter must not have run yet
             _State.counter = n0
@@ -394,6 +504,7 @@ def real_conv(inp):
             return seen, _State.counter, sj
     finally:
         _State.counter = 0
+        _Mode.eqobj = False
     raise AssertionError(ctx)
 
 
@@ -416,7 +527,9 @@ def mk_conv_case(inp):
         "None" if t is None else "(Some %s)" % enc_tree(t),
         lst(enc_in(v) for v in inp["vs"]), i, fl, inp["n0"], lst(seen), n1)
     nontriv = t is not None and t[0] in ("pipe", "opt", "def", "fac", "conv")
-    return Case(term, inp, {"results": sj, "counter_after": n1}, sig={"part": "conv", "ctx": ctx},
+    return Case(term, inp, {"results": sj, "counter_after": n1},
+                sig={"part": "conv", "ctx": ctx, "callable_objects_with_value_equality": bool(inp.get("eqobj")),
+                     "equal_decoy": inp.get("decoy") or "none"},
                 nontrivial=nontriv, key=term)
 
 
@@ -463,6 +576,9 @@ def rand_tree(rng, d, plain=False):
 def rand_ctx(rng, inp):
     ctx = rng.choice(["SA", "IN", "IN", "AS", "AS"])
     inp["ctx"] = ctx
+    if rng.random() < 0.3:
+        inp["eqobj"] = True
+        inp["decoy"] = rng.choice([None, "class", "field"]) if ctx != "SA" else None
     if ctx == "SA":
         inp["i"], inp["fl"] = rng.randrange(N_TOK), rng.randrange(N_TOK)
     elif ctx == "IN":
@@ -510,6 +626,22 @@ def gen_conv(tier, rng):
         for how in INIT_PASS:
             cases.append(mk_conv_case({"part": "conv", "tree": ["fun", 6], "vs": [0, None], "n0": 2,
                                        "ctx": "IN", "flavour": fl, "pass": how, "as_list": False}))
+    # callable OBJECTS with value equality as converters (plain at the root, inside pipe/optional, inside a
+    # Converter, as factory), after an equal-but-different one was used by another class / an earlier field
+    eq_trees = [["fun", 1], ["fun", 10], ["fun", 30], ["pipe", [["fun", 1]]], ["pipe", [["fun", 1], ["fun", 2]]],
+                ["opt", ["fun", 3]], ["conv", 4, False, False], ["conv", 5, True, True],
+                ["pipe", [["fun", 1], ["conv", 2, True, False]]], ["fac", 1, "kw"], ["fac", 2, "Factory"]]
+    for t in eq_trees:
+        for decoy in ("class", "field", None):
+            for k2, fl in enumerate(INIT_FLAVOURS):
+                cases.append(mk_conv_case({"part": "conv", "tree": t, "vs": [0, None, 2], "n0": 1, "ctx": "IN",
+                                           "flavour": fl, "pass": INIT_PASS[k2 % len(INIT_PASS)], "as_list": False,
+                                           "eqobj": True, "decoy": decoy}))
+            for fl in ("cls-convert", "define", "direct"):
+                cases.append(mk_conv_case({"part": "conv", "tree": t, "vs": [0, None, 2], "n0": 1, "ctx": "AS",
+                                           "flavour": fl, "as_list": False, "eqobj": True, "decoy": decoy}))
+        cases.append(mk_conv_case({"part": "conv", "tree": t, "vs": [0, None], "n0": 1, "ctx": "SA",
+                                   "i": 10, "fl": 11, "eqobj": True}))
     # no converter at all: identity in __init__ and on assignment
     for v in (0, None):
         for ctx, fl in (("IN", "attr.s"), ("IN", "define"), ("AS", "cls-convert"), ("AS", "define"), ("AS", "direct")):
@@ -520,7 +652,7 @@ def gen_conv(tier, rng):
         d = rng.choice([2, 3, 3, 4, 4, 4])
         plain = rng.random() < 0.2
         t = rand_tree(rng, d, plain)
-        if t[0] not in ("pipe", "opt"):
+        if t[0] not in ("pipe", "opt") and rng.random() < 0.8:      # else: a bare leaf is the field's converter
             t = ["pipe", [t, rand_tree(rng, d - 1, plain)]]
         vs = [rng.choice([None, None, None] + list(range(N_TOK))) for _ in range(rng.choice([1, 2, 2, 3]))]
         inp = rand_ctx(rng, {"part": "conv", "tree": t, "vs": vs, "n0": rng.randrange(40)})
